@@ -160,9 +160,12 @@ class Container:
         # THIS IS WHERE SOME NUMPY FUTURE WARNINGS ARE COMING FROM
 
         if not ignore_data_type and x.dtype != y.dtype:
-            if x.dtype.kind not in ("S", "U") and y.dtype.kind not in (
-                "S",
-                "U",
+            if (
+                x.dtype.kind not in ("S", "U")
+                and y.dtype.kind not in ("S", "U")
+                # Data types that differ only in their byte orders are
+                # the same type
+                and x.dtype.newbyteorder("=") != y.dtype.newbyteorder("=")
             ):
                 return False
 
